@@ -761,6 +761,7 @@ PROPS = {
         "units": ["base64_encode", "base64_decode"],
         "falsifier": "base64",
         "level": "proof",
+        "kani": True,
         "samples": [
             "Base64::encode / postcondition / res.is_ok() && res.unwrap()@ == b64(bytes@)",
             "Base64::encode_sequence / postcondition / 1 <= bytes@.len() <= 3 ==> res.is_ok() && res.unwrap()@ == group(bytes@)",
